@@ -54,6 +54,12 @@ dyadic (they are floats sent exactly), so numerator and denominator convert exac
 when they are below 2^53; otherwise the division rounds once more (documented). -/
 def ratToFloat (r : Rat) : Float := Float.ofInt r.num / Float.ofNat r.den
 
+/-- conversion for rationals whose numerator/denominator may exceed the double range: both are shifted right
+by the same amount first (relative error ≤ 2⁻⁶⁰) -/
+def ratToFloatBig (r : Rat) : Float :=
+  let k := r.den.log2 - 62
+  Float.ofInt (r.num / (2 ^ k : Nat)) / Float.ofNat (r.den / 2 ^ k)
+
 partial def loop (h : IO.FS.Stream) (step : String → String) : IO Unit := do
   let line ← h.getLine
   if line.isEmpty then return ()
